@@ -310,7 +310,10 @@ package vanguard
 //@ |      && (!w.writingEnvelope ==> w.current != nil) && (w.writingEnvelope ==> !w.currentIsTrailer) && (w.remainingBytes != -1 && !w.currentIsTrailer ==> !w.mustReleaseCurrent)))
 
 //@ func (*envelopingWriter).writeBytes
+//@   ensures[C03] r1 == nil ==> w.rw.endWritten == old(w.rw.endWritten)
+//@   atcall[C03] (io.Writer).Write: !w.rw.endWritten
 //@   dispatch (io.Writer).Write: *limitWriter
+//@   requires[C03] !w.writingEnvelope ==> !w.rw.endWritten
 //@   requires validEW(w) && (w.writingEnvelope ==> 0 <= w.remainingBytes && w.remainingBytes <= 5) && (!w.writingEnvelope ==> w.current != nil)
 //@   step rwStep(w.rw)
 //@   ensures[C08] 0 <= r0 && r0 <= len(data) && (r1 == nil ==> r0 == len(data))
@@ -320,6 +323,10 @@ package vanguard
 //@   modifies w.env, owned(w.rw.buf), #RWB
 
 //@ func (*envelopingWriter).maybeInit
+//@   ensures[C03] old(w.initialized) ==> w.rw.endWritten == old(w.rw.endWritten)
+//@   requires[C03] !w.initialized ==> !w.rw.endWritten
+//@   ensures[C03] !old(w.initialized) && w.err == nil ==> !w.rw.endWritten
+//@   atcall[C03] (io.Writer).Write: !w.rw.endWritten
 //@   dispatch (io.Writer).Write: *limitWriter
 //@   requires validEW(w) && (!w.initialized ==> w.err == nil && w.current == nil && !w.writingEnvelope && !w.mustReleaseCurrent && !w.currentIsTrailer)
 //@   requires w.initialized ==> ewInv(w)
@@ -333,6 +340,7 @@ package vanguard
 //@   modifies w.initialized, w.writingEnvelope, w.remainingBytes, w.current, w.mustReleaseCurrent, w.err, $vanguard.limitWriter., owned(unbox(w.current, *limitWriter).buf), owned(w.rw.buf), #RWB
 
 //@ func (*envelopingWriter).handleEnvelopeWritten
+//@   ensures[C03] err == nil ==> w.rw.endWritten == old(w.rw.endWritten)
 //@   dispatch (io.Writer).Write: *limitWriter
 //@   requires validEW(w) && relInv(w)
 //@   requires w.err == nil && w.initialized && !w.currentIsTrailer && !w.mustReleaseCurrent
@@ -359,6 +367,10 @@ package vanguard
 //@   modifies w.mustReleaseCurrent, w.err, owned(unbox(w.current, *bytes.Buffer)), owned(w.rw.buf), #RWB
 
 //@ func (*envelopingWriter).Write
+//@   requires[C03] w.err == nil ==> !w.rw.endWritten
+//@   ensures[C03] w.err == nil ==> !w.rw.endWritten
+//@   loop 1 invariant[C03] w.err == nil ==> !w.rw.endWritten
+//@   atcall[C03] (io.Writer).Write: !w.rw.endWritten
 //@   dispatch (io.Writer).Write: *limitWriter
 //@   track flushes = (*responseWriter).flushMessage
 //@   track envs = (*envelopingWriter).handleEnvelopeWritten
@@ -372,6 +384,7 @@ package vanguard
 //@   loop 1 decreases len(data), ite(w.writingEnvelope, 0, 1), ite(w.err == nil, 1, 0)
 
 //@ func (*envelopingWriter).Close
+//@   atcall[C03] (io.Writer).Write: !w.rw.endWritten
 //@   dispatch (io.Writer).Write: *limitWriter
 //@   requires ewInv(w)
 //@   step rwStep(w.rw)
